@@ -3,48 +3,96 @@
    an alphabet of identifiers (so that all TLC workers share the enumeration), then one query is
    looked up by the loop of the code.  One CASE line per (history, query).
 
+   The alphabets are organised in *focuses*; one TLC run explores every focus of the configuration.
+   Each focus is the full product of the dimensions it is about (with every list-valued dimension
+   holding >= 2 distinct elements in different orders and multiplicities), the other dimensions
+   being held at one or two values:
+
+     general  names x {<<>>, <<DAGGER>>} x parameter lists of length <= 1 (literal spellings of one
+              value, variable) x qubit lists (fixed / variable mixes): precedence by fixed-qubit count
+              and definition order, interplay of all six rules
+     mods     modifier lists of length 0..3 over DAGGER and CONTROLLED, in both orders and with
+              different multiplicities, on the definition and on the query side; two names
+     params   parameter lists of length 1..2 mixing literals and variables in every order, queried with
+              argument lists in both orders (positions must line up)
+     qubits   qubit lists of length 2 with fixed and variable qubits in every position and order
+     meas     measurement calibrations: names (none, two distinct ones), fixed / variable qubits,
+              record / effect
+
    Exclusions (the statement quantifies over "small alphabets of names, modifiers, fixed/variable
    qubits and literal/variable parameters"): no placeholder qubits; calibration parameters are
    literals or variables only (no compound expressions); literals are non-negative. *)
 EXTENDS Calibration, Json
-CONSTANTS MaxCals,      \* length of the insert history
-          Names,        \* names of gate calibrations (queries use QueryNames)
-          QueryNames,
-          ModSets,      \* modifier lists of identifiers and queries (ModsAll or ModsNone below)
-          MeasCals      \* TRUE: also explore measurement calibrations
+CONSTANTS Focuses,      \* subset of {"general", "mods", "params", "qubits", "meas"}
+          MaxGeneral,   \* length of the insert history in the focus "general"
+          MaxSmall,     \* ... in the focuses "mods", "params", "qubits"
+          MaxMeas,      \* ... in the focus "meas"
+          GeneralNames  \* names of the definitions in the focus "general" (queries are named RX)
 
 Q0 == Fixed(0)   Q1 == Fixed(1)   Qq == QVar("q")   Qr == QVar("r")
+D == "DAGGER"    C == "CONTROLLED"
+T == EVar("t")   U == EVar("u")
 
-ModsAll    == {<<>>, <<"DAGGER">>}
-ModsNone   == {<<>>}
-CalParams  == {<<>>, <<EInt(1)>>, <<EPi2>>, <<EReal(HalfPi)>>, <<EVar("t")>>}
-CalQubits  == {<<Q0>>, <<Qq>>, <<Q0, Q1>>, <<Qq, Q1>>, <<Qq, Qr>>}
-GateParams == {<<>>, <<EInt(0)>>, <<EPi2>>, <<EVar("t")>>, <<EPlus1(EInt(0))>>}
-GateQubits == {<<Q0>>, <<Q1>>, <<Q0, Q1>>}
+GateIds(names, mods, params, qubits) ==
+  {[k |-> "DefCal", name |-> n, mods |-> m, params |-> p, qubits |-> q] :
+     n \in names, m \in mods, p \in params, q \in qubits}
+Gates(names, mods, params, qubits) ==
+  {Gate(n, m, p, q) : n \in names, m \in mods, p \in params, q \in qubits}
 
-GateCalIds == {[k |-> "DefCal", name |-> n, mods |-> m, params |-> p, qubits |-> q] :
-                 n \in Names, m \in ModSets, p \in CalParams, q \in CalQubits}
-GateQueries == {Gate(n, m, p, q) : n \in QueryNames, m \in ModSets, p \in GateParams, q \in GateQubits}
+ModLists == {<<>>, <<D>>, <<D, C>>, <<C, D>>, <<D, D, C>>, <<D, C, C>>}
+
+GateCalIds(f) ==
+  CASE f = "general" -> GateIds(GeneralNames, {<<>>, <<D>>},
+                                {<<>>, <<EInt(1)>>, <<EPi2>>, <<EReal(HalfPi)>>, <<T>>},
+                                {<<Q0>>, <<Qq>>, <<Q0, Q1>>, <<Qq, Q1>>, <<Qq, Qr>>})
+    [] f = "mods"    -> GateIds({"X", "RX"}, ModLists, {<<>>}, {<<Q0, Q1>>, <<Qq, Q1>>})
+    [] f = "params"  -> GateIds({"RX"}, {<<>>},
+                                {<<EInt(1)>>, <<T>>, <<EInt(1), T>>, <<T, EInt(1)>>, <<T, U>>,
+                                 <<EInt(1), EPi2>>, <<EPi2, EInt(1)>>},
+                                {<<Q0>>, <<Qq>>})
+    [] f = "qubits"  -> GateIds({"RX"}, {<<>>}, {<<>>},
+                                {<<Q0, Q1>>, <<Q1, Q0>>, <<Qq, Q1>>, <<Q0, Qr>>, <<Q1, Qr>>, <<Qq, Q0>>, <<Qq, Qr>>})
+GateQueries(f) ==
+  CASE f = "general" -> Gates({"RX"}, {<<>>, <<D>>},
+                              {<<>>, <<EInt(0)>>, <<EPi2>>, <<T>>, <<EPlus1(EInt(0))>>},
+                              {<<Q0>>, <<Q1>>, <<Q0, Q1>>})
+    [] f = "mods"    -> Gates({"RX"}, ModLists, {<<>>}, {<<Q0, Q1>>})
+    [] f = "params"  -> Gates({"RX"}, {<<>>},
+                              {<<EInt(1)>>, <<EPi2>>, <<EInt(1), EPi2>>, <<EPi2, EInt(1)>>, <<EInt(1), EInt(1)>>,
+                               <<EPlus1(EInt(0)), EReal(HalfPi)>>},
+                              {<<Q0>>, <<Q1>>})
+    [] f = "qubits"  -> Gates({"RX"}, {<<>>}, {<<>>}, {<<Q0, Q1>>, <<Q1, Q0>>, <<Q1, Q1>>})
 
 MeasCalIds == {[k |-> "DefCalMeasure", name |-> n, qubit |-> q, target |-> t] :
-                 n \in {"", "m"}, q \in {Q0, Q1, Qq, Qr}, t \in {"", "addr"}}
+                 n \in {"", "m", "n"}, q \in {Q0, Q1, Qq, Qr}, t \in {"", "addr"}}
 MeasQueries == {Measure(n, q, t) : n \in {"", "m"}, q \in {Q0, Q1}, t \in {None, Some(MRef("ro", 1))}}
+
+MaxOf(f) == CASE f = "general" -> MaxGeneral [] f = "meas" -> MaxMeas [] OTHER -> MaxSmall
 
 WithTag(id, tag) == IF id.k = "DefCal"
                     THEN [k |-> id.k, name |-> id.name, mods |-> id.mods, params |-> id.params, qubits |-> id.qubits, tag |-> tag]
                     ELSE [k |-> id.k, name |-> id.name, qubit |-> id.qubit, target |-> id.target, tag |-> tag]
 
-Init == \E kd \in ({"gate"} \cup (IF MeasCals THEN {"meas"} ELSE {})) : InitWith(kd)
-Add  == /\ Len(hist) < MaxCals
-        /\ \E id \in (IF kind = "gate" THEN GateCalIds ELSE MeasCalIds) : Insert(WithTag(id, Len(hist) + 1))
-LookupGate == \E g \in GateQueries : StartGate(g)
-LookupMeas == \E m \in MeasQueries : StartMeas(m)
-Next == Add \/ LookupGate \/ ScanGate \/ DoneGate \/ LookupMeas \/ ScanMeas \/ DoneMeas
-Spec == Init /\ [][Next]_vars
+VARIABLE focus
+mvars == <<vars, focus>>
+
+Init == /\ focus \in Focuses
+        /\ InitWith(IF focus = "meas" THEN "meas" ELSE "gate")
+Add  == /\ Len(hist) < MaxOf(focus)
+        /\ \E id \in (IF focus = "meas" THEN MeasCalIds ELSE GateCalIds(focus)) : Insert(WithTag(id, Len(hist) + 1))
+        /\ UNCHANGED focus
+LookupGate == focus # "meas" /\ (\E g \in GateQueries(focus) : StartGate(g)) /\ UNCHANGED focus
+LookupMeas == focus = "meas" /\ (\E m \in MeasQueries : StartMeas(m)) /\ UNCHANGED focus
+MScanGate == ScanGate /\ UNCHANGED focus
+MDoneGate == DoneGate /\ UNCHANGED focus
+MScanMeas == ScanMeas /\ UNCHANGED focus
+MDoneMeas == DoneMeas /\ UNCHANGED focus
+Next == Add \/ LookupGate \/ MScanGate \/ MDoneGate \/ LookupMeas \/ MScanMeas \/ MDoneMeas
+Spec == Init /\ [][Next]_mvars
 
 \* one line per explored behaviour: the input (history, query) and the expected public observables
 Emit == phase = "done" =>
-          PrintT(<<"CASE", ToJson([kind |-> kind, hist |-> hist, query |-> query,
+          PrintT(<<"CASE", ToJson([focus |-> focus, kind |-> kind, hist |-> hist, query |-> query,
                                    gtags |-> IF kind = "gate" THEN Tags(set) ELSE <<>>,
                                    mtags |-> IF kind = "meas" THEN Tags(set) ELSE <<>>,
                                    chosen |-> ChosenTag,
